@@ -71,6 +71,10 @@ func hrefForm(u, form string) string {
 const c17Body = "<p>alpha beta gamma delta epsilon zeta eta theta iota kappa lambda mu nu xi omicron pi rho sigma tau upsilon phi chi psi omega " +
 	"alpha beta gamma delta epsilon zeta eta theta iota kappa lambda mu nu xi omicron pi rho sigma tau upsilon.</p>\n"
 
+// c17Lead: numeric link texts that are no pager (a comment counter, each followed by another anchor),
+// above the article body; set per enumeration cell.
+var c17Lead = ""
+
 // c17ContainerAttr is the attribute text of the pager's container (set by the prev/next loop).
 var c17ContainerAttr = ` class="pager"`
 
@@ -131,7 +135,7 @@ func renderPager(fam urlFamily, n, k int, wrapper, current, sep, label, form str
 	default:
 		inner = strings.Join(items, sep)
 	}
-	return "<html><head><title>Some story</title></head><body>\n" + c17Body + c17Body +
+	return "<html><head><title>Some story</title></head><body>\n" + c17Body + c17Lead + c17Body +
 		`<div` + c17ContainerAttr + `>` + label + inner + "</div>\n</body></html>"
 }
 
@@ -212,6 +216,11 @@ func TestC17(t *testing.T) {
 										if k > 1 {
 											ex.Prev = normPagerURL(fam.link(k - 1))
 										}
+										c17Lead = ""
+										if markup%3 == 0 {
+											// a comment counter above and below the headline, each followed by another link
+											c17Lead = `<p><a href="/story/comments#c">12</a> <a href="/share">Share</a></p>` + "\n" + c17Body + `<p><a href="/story/comments#c">12</a> <a href="/share">Share</a></p>` + "\n"
+										}
 										c := &Case{Property: "C17", Kind: "page-number", HTML: renderPager(fam, n, k, wrapper, current, sep, label, form, true, nil, pretty),
 											Opts: OptSpec{URL: fam.link(k), Algo: 1}}
 										c.SetExtra(ex)
@@ -249,6 +258,7 @@ func TestC17(t *testing.T) {
 									if k > 1 {
 										ex.Prev = normPagerURL(fam.link(k - 1))
 									}
+									c17Lead = ""
 									c17ContainerAttr = cattr
 									page := renderPager(fam, n, k, wrapper, "strong", " ", "", form, numbered, &pn, pretty)
 									c17ContainerAttr = ` class="pager"`
